@@ -252,6 +252,40 @@ static void run_intrusive_dups(const std::vector<long long>& seq, const char* fa
    for (auto p : nodes) delete p;
 }
 
+// Owning flavour whose element constructor refuses some keys (throws): a refused insertion inserts nothing -- the tree is
+// what it was (shape, size), the refused key is not found, and later insertions behave as if the attempt had not been made.
+struct Fussy {
+   long long key;
+   explicit Fussy(long long k) : key(k) { if (k % 5 == 3) throw std::invalid_argument("refused key"); }
+};
+struct FussyCmp {
+   int operator()(const Fussy& a, long long k) const { return a.key < k ? -1 : (a.key > k ? 1 : 0); }
+   int operator()(const Fussy& a, const Fussy& b) const { return a.key < b.key ? -1 : (a.key > b.key ? 1 : 0); }
+};
+static void run_owning_refusing(const std::vector<long long>& seq, const char* family)
+{
+   auto& C = ctx();
+   OCont<Fussy> tree;
+   using N = rb::node<Fussy>;
+   Validator<N, NodeCmp<Fussy, FussyCmp>> val;
+   Shape before, after;
+   std::set<long long> present;
+   auto J0 = [&] { return J().s("family", family).raw("seq", seq_json(seq)).str(); };
+   for (long long k : seq) {
+      std::string e0 = val.validate(tree.get_root(), (long long)present.size(), before);
+      bool threw = false;
+      try { Fussy* p = tree.insert(k, FussyCmp{}); if (!p || p->key != k) C.viol("owning-refusing:insert-value", "insert returned a wrong element", J0()); present.insert(k); }
+      catch (const std::invalid_argument&) { threw = true; C.count("insertions_refused_by_the_element_constructor"); }
+      std::string e1 = val.validate(tree.get_root(), (long long)present.size(), after);
+      C.count("validations");
+      if (!e1.empty()) { C.viol(std::string("owning-refusing:shape:") + e1.substr(0, 40), e1 + (threw ? " after an insertion that the element constructor refused" : " after an insertion"), J0()); return; }
+      if (tree.size() != (long long)present.size()) { C.viol("owning-refusing:size", "size() counts an insertion that the element constructor refused", J0()); return; }
+      if (threw && e0.empty() && before.fp != after.fp) { C.viol("owning-refusing:shape-changed", "a refused insertion changed the tree", J0()); return; }
+      if (threw && tree.find(k, FussyCmp{}) != nullptr && !present.count(k)) { C.viol("owning-refusing:refused-key-found", "a key whose insertion was refused is found", J0()); return; }
+   }
+   for (long long k : present) { auto* f = tree.find(k, FussyCmp{}); if (!f || f->key != k) { C.viol("owning-refusing:find", "an inserted key is not found after refused insertions", J0()); return; } }
+}
+
 // Owning flavour over integer keys with duplicates allowed.
 static void run_owning_int(const std::vector<long long>& seq, const char* family, long long every, bool count_case)
 {
@@ -389,7 +423,7 @@ static void body(Ctx& C)
    C.assume("comparators supplied by the harness are total orders");
    C.assume("exhaustive only up to the stated bounds; longer sequences are sampled");
    for (int i = 0; i < 6; ++i) C.need(std::string("fixup_case_") + std::to_string(i));
-   C.need("wide_result_sequences"); C.need("intrusive_duplicates_offered"); C.need("rejected_nodes_offered_to_a_second_chain");
+   C.need("wide_result_sequences"); C.need("intrusive_duplicates_offered"); C.need("rejected_nodes_offered_to_a_second_chain"); C.need("insertions_refused_by_the_element_constructor");
 
    const int maxn = C.thorough ? 9 : 8;
    // -- all permutations of 1..n ------------------------------------------------------
@@ -416,6 +450,7 @@ static void body(Ctx& C)
             if (idx++ % C.workers == C.worker) {
                run_owning_int(s, "dupseq", 1, false);
                run_intrusive_dups(s, "dupseq");
+               run_owning_refusing(s, "dupseq");
                C.count("dup_sequences");
                C.eval(hash_bytes(std::string_view(reinterpret_cast<const char*>(s.data()), s.size() * sizeof(long long)), 7));
                if (len == 6 && alphabet == 5) C.sample(J().s("kind", "dup-sequence").raw("seq", seq_json(s)).str(), 3);
